@@ -196,6 +196,11 @@ def large_cases(run, np, sp, op4):
     cases = []
     A = np.zeros((3500, 2)); A[3:3400, 0] = rng.standard_normal(3397); A[10, 0] = 0.0; A[3499, 1] = -2.5
     cases.append(("over-cutoff", A, None))
+    Ac = np.zeros((1600, 2), complex); Ac[2:1590, 0] = rng.standard_normal(1588) + 1j * rng.standard_normal(1588); Ac[1599, 1] = 1.5 - 2j
+    cases.append(("over-cutoff-complex", Ac, None))      # 1500 complex rows = 3000 doubles per column
+    for nr_ in (2999, 3000, 3001):
+        At = np.zeros((nr_, 1)); At[:, 0] = rng.standard_normal(nr_)
+        cases.append(("cutoff-%d" % nr_, At, None))
     B = np.zeros((70000, 2)); B[5, 0] = 1.5; B[65540:65543, 0] = [1.0, 2.0, 3.0]; B[69999, 1] = 4.0
     cases.append(("rows>=65536", B, None))
     Cm = np.zeros((16390, 1)); Cm[:16383, 0] = np.arange(1, 16384)
@@ -212,43 +217,49 @@ def large_cases(run, np, sp, op4):
                 for intype in ("ndarray", "csc"):
                     if A.shape[0] > 10000 and (intype == "csc") != (mode == "auto") and label != "string-16384":
                         continue
-                    long_string = label == "string-16384" and mode == "nonbigmat"
-                    tags = {"kind": "binary" if binary else "ascii", "sparse": mode, "long_string": long_string}
-                    case = {"large": label, "binary": binary, "sparse": mode, "input": intype, "shape": list(A.shape)}
-                    run.case(json.dumps(case), part="large/special shapes")
-                    fd, path = tempfile.mkstemp(suffix=".op4", prefix="verif_L_")
-                    os.close(fd)
-                    try:
-                        inp = A if intype == "ndarray" else sp.csc_matrix(A)
+                    # columns around the struct -> tobytes / fromfile cut-over are written in both byte orders
+                    for endian in (("", "<", ">") if (binary and "cutoff" in label) else ("",)):
+                        long_string = label == "string-16384" and mode == "nonbigmat"
+                        tags = {"kind": "binary" if binary else "ascii", "sparse": mode, "long_string": long_string}
+                        case = {"large": label, "binary": binary, "sparse": mode, "input": intype, "shape": list(A.shape), "endian": endian}
+                        run.case(json.dumps(case), part="large/special shapes")
+                        fd, path = tempfile.mkstemp(suffix=".op4", prefix="verif_L_")
+                        os.close(fd)
                         try:
-                            op4.write(path, ["big"], [inp], binary=binary, sparse=mode)
-                        except Exception as ex:
-                            run.violation("OP4 write of %s raised %r" % (label, ex), case, tags)
-                            continue
-                        var, blocks = P.tokenize(open(path, "rb").read())
-                        b = blocks[0]
-                        if label == "rows>=65536" and mode in ("nonbigmat", "bigmat") and b["hdr"]["nrows"] >= 0:
-                            run.violation("matrix with >= 65536 rows must be written in bigmat form (negative row count)", case, tags)
-                        if autoform is not None and b["hdr"]["form"] != autoform:
-                            run.violation("auto form of a %s square matrix is %d" % (label, b["hdr"]["form"]), case, tags)
-                        exp = A if binary else np.vectorize(lambda y: float("%.16E" % y))(A)
-                        coo = sorted((s_["r0"] - 1 + k, c["icol"] - 1, v) for c in b["cols"] for s_ in c["strs"] for k, v in enumerate(s_["vals"]) if v != 0)
-                        want = sorted((int(i), int(j), float(exp[i, j])) for i, j in zip(*np.nonzero(exp)))
-                        if coo != want:
-                            run.violation("values in the written file differ from the matrix (%s)" % label, case, tags)
-                        for rmode in (False, True, None):
-                            n_, m_, f_, t_ = op4.load(path, into="list", sparse=rmode)
-                            d = m_[0].toarray() if sp.issparse(m_[0]) else np.asarray(m_[0])
-                            if d.shape != A.shape or not np.array_equal(d, exp):
-                                run.violation("load(sparse=%r) of %s differs from what was written" % (rmode, label), case, tags)
-                        run.trace_validated()
-                    except P.FormatError as ex:
-                        run.violation("written file (%s) is not a word of the OUTPUT4 grammar: %s" % (label, ex), case, tags)
-                    finally:
-                        try:
-                            os.unlink(path)
-                        except OSError:
-                            pass
+                            inp = A if intype == "ndarray" else sp.csc_matrix(A)
+                            try:
+                                op4.write(path, ["big"], [inp], binary=binary, sparse=mode, **({"endian": endian} if endian else {}))
+                            except Exception as ex:
+                                run.violation("OP4 write of %s raised %r" % (label, ex), case, tags)
+                                continue
+                            var, blocks = P.tokenize(open(path, "rb").read())
+                            b = blocks[0]
+                            if label == "rows>=65536" and mode in ("nonbigmat", "bigmat") and b["hdr"]["nrows"] >= 0:
+                                run.violation("matrix with >= 65536 rows must be written in bigmat form (negative row count)", case, tags)
+                            if autoform is not None and b["hdr"]["form"] != autoform:
+                                run.violation("auto form of a %s square matrix is %d" % (label, b["hdr"]["form"]), case, tags)
+                            rnd16 = np.vectorize(lambda y: float("%.16E" % y))
+                            if np.iscomplexobj(A):
+                                exp = A if binary else rnd16(A.real) + 1j * rnd16(A.imag)
+                            else:
+                                exp = A if binary else rnd16(A)
+                                coo = sorted((s_["r0"] - 1 + k, c["icol"] - 1, v) for c in b["cols"] for s_ in c["strs"] for k, v in enumerate(s_["vals"]) if v != 0)
+                                want = sorted((int(i), int(j), float(exp[i, j])) for i, j in zip(*np.nonzero(exp)))
+                                if coo != want:
+                                    run.violation("values in the written file differ from the matrix (%s)" % label, case, tags)
+                            for rmode in (False, True, None):
+                                n_, m_, f_, t_ = op4.load(path, into="list", sparse=rmode)
+                                d = m_[0].toarray() if sp.issparse(m_[0]) else np.asarray(m_[0])
+                                if d.shape != A.shape or not np.array_equal(d, exp):
+                                    run.violation("load(sparse=%r) of %s differs from what was written" % (rmode, label), case, tags)
+                            run.trace_validated()
+                        except P.FormatError as ex:
+                            run.violation("written file (%s) is not a word of the OUTPUT4 grammar: %s" % (label, ex), case, tags)
+                        finally:
+                            try:
+                                os.unlink(path)
+                            except OSError:
+                                pass
 
 
 def one_file(np, sp, op4, legal, inputs, mats, names, forms, binary, sparse_mode, extra, cplx, pats, run):
